@@ -72,7 +72,7 @@ func (orderedMap *Map[K, V]) Has(key K) bool {
 func (orderedMap *Map[K, V]) Remove(key K) {
 	delete(orderedMap.records, key)
 
-	newOrder := make([]K, 0, len(orderedMap.order)-1)
+	newOrder := make([]K, 0, len(orderedMap.order))
 	for _, elem := range orderedMap.order {
 		if elem == key {
 			continue
